@@ -332,6 +332,61 @@ fn check_weights(c: &TableCase, _ctx: &Ctx) -> Outcome {
     pass(shared_code, key_of(&(c.k, t.rows.values().collect::<Vec<_>>())), if shared_code { vec!["pair_sharing_an_ambiguity_code"] } else { vec![] })
 }
 
+/// the same weights through the command line: `ska distance --allow-ambiguous --min-freq 0`
+fn check_weights_cli(c: &TableCase, ctx: &Ctx) -> Outcome {
+    let t = c.table();
+    let n = t.nsamples();
+    if n < 2 {
+        return pass(false, 0, vec!["single_sample"]);
+    }
+    let dir = ctx.case_dir();
+    let r: Result<bool, Outcome> = (|| {
+        let res = if c.k <= 31 { save_table::<u64>(&t, c.k, c.rc, &dir.join("t.skf"), false) } else { save_table::<u128>(&t, c.k, c.rc, &dir.join("t.skf"), false) };
+        res.map_err(Outcome::Infra)?;
+        let o = crate::cli::run_ska(ctx, &dir, &["distance", "t.skf", "--allow-ambiguous", "--min-freq", "0"]);
+        must_ok(&o, "ska distance --allow-ambiguous")?;
+        // rows whose symbols are all identical are "constant sites": removed before the pairwise sums
+        let rows: Vec<&Vec<u8>> = t.rows.values().filter(|r| r.iter().any(|b| *b != r[0])).collect();
+        let mut exp = Vec::new();
+        let mut shared_code = false;
+        for i in 0..n {
+            for j in (i + 1)..n {
+                let mut d = 0.0;
+                for row in &rows {
+                    let (a, b) = (row[i], row[j]);
+                    if a != b'-' && b != b'-' {
+                        d += 1.0 - weight_overlap(a, b);
+                        if a == b && model::sym_is_ambig(a) {
+                            shared_code = true;
+                        }
+                    }
+                }
+                exp.push((t.names[i].clone(), t.names[j].clone(), d));
+            }
+        }
+        let out = o.out_str();
+        let lines: Vec<&str> = out.lines().skip(1).collect();
+        if lines.len() != exp.len() {
+            return Err(Outcome::Fail(format!("{} lines for {} pairs", lines.len(), exp.len())));
+        }
+        for (l, (a, b, d)) in lines.iter().zip(exp.iter()) {
+            let f: Vec<&str> = l.split('\t').collect();
+            let got: f64 = f.get(2).and_then(|x| x.parse().ok()).unwrap_or(f64::NAN);
+            // printed with two decimals
+            if f.len() != 4 || f[0] != a || f[1] != b || !((got - d).abs() <= 0.0051) {
+                return Err(Outcome::Fail(format!("line {l:?}: expected pair {a} {b} with distance {d:.4} (sum over shared, non-constant k-mers of 1 - overlap of uniform weights)")));
+            }
+        }
+        Ok(shared_code)
+    })();
+    ctx.done(&dir);
+    match r {
+        Err(Outcome::Fail(m)) => Outcome::Fail(format!("k={} rows={:?}: {m}", c.k, t.rows.values().map(|r| lossy(r)).collect::<Vec<_>>())),
+        Err(o) => o,
+        Ok(shared) => pass(shared, key_of(&(c.k, t.rows.values().collect::<Vec<_>>(), "cli")), if c.k >= 33 { vec!["128bit"] } else { vec![] }),
+    }
+}
+
 fn stages(tier: Tier) -> Vec<Box<dyn Stage>> {
     vec![
         enum_stage(
@@ -355,6 +410,15 @@ fn stages(tier: Tier) -> Vec<Box<dyn Stage>> {
             800,
             || table_case_strategy(8, 30, true),
             check_weights,
+            |c| json!({"k": c.k, "rows": c.table().rows.values().take(8).map(|r| lossy(r)).collect::<Vec<_>>()}),
+        ),
+        gen_stage_show(
+            "weights_through_cli",
+            "the same tables through `ska distance --allow-ambiguous --min-freq 0` (k over 5..63, both integer widths): printed distance of every pair == model sum over shared non-constant k-mers (tolerance: two printed decimals). Non-trivial: some pair shares an ambiguity code.",
+            tier.pick(1200, 16_000),
+            150,
+            || table_case_strategy(8, 30, true),
+            check_weights_cli,
             |c| json!({"k": c.k, "rows": c.table().rows.values().take(8).map(|r| lossy(r)).collect::<Vec<_>>()}),
         ),
     ]
